@@ -5,6 +5,16 @@ HERE = os.path.dirname(os.path.dirname(os.path.abspath(__file__)))
 ALL = ["C%02d" % i for i in range(1, 21)]
 # id -> (category, engine, technique, level text, level note, design ref)
 CHECKS = {
+ "C08": ("model_checking", "E2-bfs",
+   "exhaustive enumeration of option histories (depth <= 2 over 12 options, depth 3 over 4/12) x all row patterns x four formats on real readers vs the statement",
+   "For every subset of rows 0..4 being non-empty (32 patterns), two column offsets and all four formats, every history of <=2 header-row settings over FirstNonEmptyRow and Row(n), n in {0..6, 65535, 65536, 1048576, u32::MAX}, and every history of 3 over a 4-option subset (thorough: all 12), is run on one reader with a read after every step; each read must not panic, start at row n iff data exists at or below n (else be empty), agree cell-by-cell with the default read at every position >= n and contain nothing else.",
+   "Trusted: the four writers and the statement-level oracle in props/c08.rs; columns of the returned range are not constrained.",
+   "DESIGN.md §2 C08"),
+ "C16": ("model_checking", "E1-choice",
+   "stateless choice-tree exploration of workbook metadata (sheet lists, names, visibility, kinds, defined names, date system) in four formats on the real readers",
+   "Workbooks with 0-3 sheets over 8 names (XML specials, quotes, non-ASCII, astral, 31 characters), every visibility and every sheet kind the format can express, 0-2 reference-valued defined names, both date systems with a date cell on every worksheet, xlsx prefix / xls name packing: all choice vectors with <=3 (thorough 4) deviations plus the full product over one-sheet workbooks; sheet_names, sheets_metadata, defined_names and the date cells are compared exactly and in order.",
+   "Trusted: the four writers; defined names are reference-valued only.",
+   "DESIGN.md §2 C16"),
  "C10": ("model_checking", "E1-choice",
    "complete enumeration of all number-format token sequences up to length 3/4 through the real classifier vs a token-level reference + full product of style tables x number encodings x date systems in three formats",
    "(a) all 143 k (thorough 7.5 M) sequences over a 52-token alphabet of the number-format grammar are classified by the real detect_custom_number_format and compared with a token-level reference (first section only; literals, escapes and bracket prefixes do not count); every built-in id 0-22, 37-49 through both lookup functions. (b) the full product (about 16 k files) of 14 style kinds, 5 serials, both date systems, XF position, out-of-range style index and every number encoding of xlsx / xls / xlsb is read end to end: variant, flavour, serial and is_1904 must match.",
